@@ -111,6 +111,9 @@ func Build(t *CTerm, st *Store) seq.Seq[int] {
 		default:
 			return seq.For[int](cond, post, body)
 		}
+	case KTwice:
+		v := Build(t.A, st)
+		return seq.Combine[int](v, v)
 	case KIte:
 		c := t.C
 		return seq.Delay[int](func() seq.Seq[int] {
